@@ -39,7 +39,7 @@ PHSP = {"rhoX": rhoX, "PhaseSpaceFactor": PhaseSpaceFactor, "PhaseSpaceFactorAbs
         "EqualMassPhaseSpaceFactor": EqualMassPhaseSpaceFactor}
 
 lines = ["(* GENERATED on every run from /repo by bridge/symgen_C12.py *)",
-         "From AV Require Import Ast.", "From Coq Require Import ZArith.", "Open Scope string_scope.", ""]
+         "From AV Require Import Ast.", "From Coq Require Import ZArith QArith.", "Open Scope string_scope.", ""]
 
 # 1. energy-dependent width: one-level evaluate(), FormFactor and rho left as opaque nodes
 edw = []
@@ -47,6 +47,26 @@ for name, cls in PHSP.items():
     tree = EnergyDependentWidth(s, m0, g0, ma, mb, L, d, phsp_factor=cls).evaluate()
     edw.append(f'({ser(name)[11:-2] if False else chr(34) + name + chr(34)}, {ser(tree)})')
 lines.append("Definition gen_edw : list (string * expr) :=\n  [" + ";\n   ".join(edw) + "].\n")
+
+# 1b. numbers inserted into the constructor BEFORE evaluate() (exact values that coincide with other arguments):
+#     the tree must be the symbolic tree at those values
+from ser import qlit  # noqa: E402
+
+INST = [("s=1,d=1,L=2", {s: sp.Integer(1), d: sp.Integer(1), L: sp.Integer(2)}),
+        ("s=2,L=2", {s: sp.Integer(2), L: sp.Integer(2)}),
+        ("s=3,d=3,L=1", {s: sp.Integer(3), d: sp.Integer(3), L: sp.Integer(1)}),
+        ("s=1/2,d=1/2", {s: sp.Rational(1, 2), d: sp.Rational(1, 2)}),
+        ("s=4,L=4,d=4", {s: sp.Integer(4), L: sp.Integer(4), d: sp.Integer(4)})]
+numfirst = []
+for name, cls in PHSP.items():
+    sym_tree = EnergyDependentWidth(s, m0, g0, ma, mb, L, d, phsp_factor=cls).evaluate()
+    for tag, sub in INST:
+        args = [sub.get(v, v) for v in (s, m0, g0, ma, mb, L, d)]
+        num_tree = EnergyDependentWidth(*args, phsp_factor=cls).evaluate()
+        assign = "; ".join(f'("{k.name}", {qlit(__import__("fractions").Fraction(int(v.p), int(v.q)))[5:-1]})' for k, v in sub.items())
+        numfirst.append(f'("{name} {tag}", [{assign}], {ser(sym_tree)}, {ser(num_tree)})')
+lines.append("Definition gen_edw_numeric_first : list (string * list (string * Q) * expr * expr) :=\n  ["
+             + ";\n   ".join(numfirst) + "].\n")
 
 # 2. form factor, one level
 lines.append(f"Definition gen_ff : expr :=\n  {ser(FormFactor(s, ma, mb, L, d).evaluate())}.\n")
